@@ -75,6 +75,16 @@ class Checker:
                         not re.search(r'\b(Admitted|admit|Axiom|Parameter|Conjecture|Hypothesis|Variable)\b', strip_comments(src)))
         return compiled
 
+    def coqchk(self):
+        """thorough tier: independent re-check of the property object and everything it depends on; axioms must be none"""
+        cmd = ['timeout', '1500', 'coqchk', '-silent', '-o', '-Q', 'theories', 'RBP', '-Q', 'gen', 'RBPGen', '-Q', 'props', 'RBPProps', 'RBPProps.' + self.prop]
+        self.checker_cmds.append('cd /verif/coq && ' + ' '.join(cmd[2:]))
+        p = subprocess.run(cmd, cwd=COQ, capture_output=True)
+        out = p.stdout.decode(errors='replace') + p.stderr.decode(errors='replace')
+        ok = p.returncode == 0 and re.search(r'Axioms:\s*<none>', out) is not None
+        self.extra['coqchk'] = ' '.join(out.split())[-400:]
+        self.obligation('coqchk -o RBPProps.%s: re-checked by the independent checker, axioms <none>' % self.prop, ok, out[-800:])
+
     def scan_sources(self):
         bad = []
         for root, _, files in os.walk(COQ):
@@ -162,6 +172,32 @@ class Checker:
         for v in self.violations[:8]: print('  disagreement (%s): %s | %s' % ('in domain' if v['in_domain'] else 'outside domain', v['what'], v['detail'][:500]))
         if self.tools: self.tools.cleanup()
         return rc
+
+
+def run_corpus(ck):
+    """corpus/<prop>.txt: single-line requests (script/mean/reward/record/blkname) kept from earlier findings; hook vs model, run before the generated cases"""
+    path = os.path.join(VERIF, 'corpus', ck.prop + '.txt')
+    if not os.path.exists(path): return 0
+    from .chain import COINS
+    n = 0
+    for line in open(path):
+        t = line.split()
+        if not t or t[0].startswith('#'): continue
+        req = line.strip(); n += 1
+        b = run.model_lines(ck.tools, [req])[0]
+        if t[0] == 'script':
+            a = run.hook_lines(ck.tools, 'script-eval', ['%02x %s' % (COINS[t[1]]['ver'], t[2] if len(t) > 2 else '-')])[0]
+            a = '|'.join(['ScriptError' if x.startswith('ScriptError') else x for x in a.split('|')[:1]] + a.split('|')[1:]); ok = a == b
+        elif t[0] == 'mean':
+            a = run.hook_lines(ck.tools, 'get-mean', [' '.join(t[1:])])[0]; sm, cnt = map(int, b.split()); ok = (not a.startswith('PANIC')) and float(a) == (float(sm) / cnt if cnt else 0.0)
+        elif t[0] == 'reward': a = run.hook_lines(ck.tools, 'base-reward', [t[1]])[0]; ok = a == b
+        elif t[0] == 'record':
+            a = run.hook_lines(ck.tools, 'index-record', [' '.join(t[1:])])[0]; a = 'panic' if a.startswith('PANIC') else ('err' if a.startswith('err') else a); ok = a == b
+        elif t[0] == 'blkname': a = run.hook_lines(ck.tools, 'blk-name', [t[1]])[0]; ok = a == b
+        else: continue
+        ck.evaluated(); ck.count('corpus')
+        if not ok: ck.disagreement('corpus entry', 'request=%s impl=%s model=%s' % (req[:200], a[:200], b[:200]), None, in_domain=True, extra_replay=req)
+    return n
 
 def pinned(prop):
     return json.load(open(os.path.join(COQ, 'props', 'PINNED.json')))[prop]
